@@ -1,6 +1,7 @@
 """C05 — the CRC check rejects single-bit and short-burst corruption (K-corrupt channel).
 
-Case line:  CORR x<bytes> <tag>      tag = <class>/<block>/<len0,len1,..>/<crc0,crc1,..>
+Case line:  REENC x<bytes> x<payload>   decode, set_payload, lifetime := 12345 ms, to_cbor -> OK MEM <T|F> WIRE <T|F|ERR>: must pass twice
+            CORR x<bytes> <tag>      tag = <class>/<block>/<len0,len1,..>/<crc0,crc1,..>
   class  U  uncorrupted CRC-protected bundle          N  uncorrupted bundle without any CRC
          B  one flipped bit in block <block>          V  change confined to the CRC value bytes of the block
          W  change confined to a 2 (CRC-16) / 4 (CRC-32C) byte window in front of the CRC value
@@ -26,7 +27,8 @@ RULE = ("CORR x<bytes>: bundles of the C01 domain with CRC-16 or CRC-32C on all 
         "patterns on selected windows around the CRC-type byte; 4-byte windows for CRC-32C blocks: boundary patterns, plus the "
         "patterns that re-type the block) and CRC-value overwrites (zero, ones, +-1, swaps, single bytes, random); alarm = decodes, "
         "re-encodes (stored CRCs) to the received bytes with the original block lengths (window class: and CRC types) and crc_valid "
-        "= true; other outcomes are counted by class and not judged; uncorrupted and CRC-less bundles must pass; non-trivial = "
+        "= true; other outcomes are counted by class and not judged; uncorrupted and CRC-less bundles must pass, and so must what to_cbor "
+        "emits after a received bundle (with correct or overwritten CRC values) got a new payload and lifetime (REENC); non-trivial = "
         "distinct corrupted line that fails to decode or meets the alarm premise, or an uncorrupted line")
 TRUSTED_BASE = CODEC_TRUSTED
 ASSUMPTIONS = ["window class: the decoded block keeps its CRC type (without this premise the statement is false for the BPv7 wire "
@@ -157,10 +159,20 @@ def _value_patterns(rng, old):
     return sorted(pats)
 
 
+def _reenc(buf, rng):
+    return "REENC %s %s" % (xhex(buf), xhex(bytes(rng.randrange(256) for _ in range(rng.choice([0, 1, 3, 9])))))
+
+
 def corruptions(rng, b, full=False, exhaustive_windows=0):
     """all case lines of one CRC-protected bundle"""
     ref, spans, lens, crcs = _meta(b)
     out = [_line(ref, "U", 0, lens, crcs)]
+    # received, changed and sent on: the CRC values the blocks arrived with (correct ones, or overwritten ones) are stale afterwards
+    out.append(_reenc(ref, rng))
+    for k, (s, e) in enumerate(spans):
+        nb = bytearray(ref)
+        nb[e - 1] ^= 0x5a
+        out.append(_reenc(nb, rng))
     for k, (s, e) in enumerate(spans):
         w = 2 if crcs[k] == 1 else 4
         # every single-bit flip of every byte of the block
@@ -317,6 +329,15 @@ def _parse_out(out):
 
 def _verdict(line, out):
     """(judged?, class key, violation text or None)"""
+    if line.startswith("REENC "):
+        if out in ("PANIC", "ABORT", "CRASH") or out is None:
+            return True, "reenc:PANIC", "the receive path panics"
+        if out == "ERR":
+            return True, "reenc:ERR", None
+        if out != "OK MEM T WIRE T":
+            return True, "reenc:" + out[:20], ("a bundle the library itself has just encoded (received, payload replaced, sent on) does not pass "
+                                               "the CRC check: %s" % out[:40])
+        return True, "reenc:passes", None
     tag = _parse_tag(line)
     if tag is None:
         return False, "untagged", None
